@@ -258,7 +258,7 @@ class H1Server(TimerMixin, Peer):
 
         def fire(t, g=g):
             if g == self.idle_timer_gen and not self.closed and self.cur is None:
-                self.w.log("srv_idle_close", self.wire.id)
+                self.w.log("srv_idle_close", self.wire.id, t)
                 self.w.probes["server_closed_idle"] += 1
                 self.w.stats["hostile:idle_close"] += 1
                 self._close(t)
